@@ -34,8 +34,24 @@ Lemma consts : fw_SCHEDULE_AHEAD = 2 /\ fw_SCHEDULE_LATENCY = 1 /\ fw_GSM_MAX_FN
   desc_has_handler DL tx_L1SCHED_IDLE = false /\ desc_has_handler UL tx_L1SCHED_IDLE = false.
 Proof. vm_compute. repeat split; reflexivity. Qed.
 
+Lemma sweep_none : forallb (fun L => negb (ly_cfg L =? tx_GSM_PCHAN_NONE) || (ly_period L =? 0)) tx_layouts = true.
+Proof. vm_compute. reflexivity. Qed.
+
 Lemma rows_count : length c11_rows = 35%nat.
 Proof. reflexivity. Qed.
+
+(* the big literal tables stay folded from here on (kernel conversion would otherwise walk through them at Qed) *)
+Opaque tx_layouts fw_sched tx_lookup tx_desc fw_chan_nr c11_rows.
+
+(* boolean plumbing stated on variables, so that no conversion ever has to look inside a checker *)
+Lemma orb_negb_true a b : a = true -> negb a || b = true -> b = true.
+Proof. intros -> H. exact H. Qed.
+Lemma orb_negb_false a b : a = false -> negb (negb a) || b = true -> b = true.
+Proof. intros -> H. exact H. Qed.
+Lemma if_false_elim (c a b : bool) : c = false -> (if c then a else b) = true -> b = true.
+Proof. intros -> H. exact H. Qed.
+Lemma if_true_elim (c a b : bool) : c = true -> (if c then a else b) = true -> a = true.
+Proof. intros -> H. exact H. Qed.
 
 (* ------------------------------------------------------------------ arithmetic: residues modulo a divisor of the cycle *)
 
@@ -128,7 +144,7 @@ Proof.
   pose proof (forallb_In _ _ sweep_rows r Hr) as H1. cbv beta in H1.
   pose proof (forallb_range _ _ _ H1 tn Htn) as H2. cbv beta in H2. clear H1.
   unfold chk_row_tn in H2. apply andb_prop in H2 as [Hc Hs].
-  rewrite Hok in Hc. cbn [negb orb] in Hc.
+  apply (orb_negb_true _ _ Hok) in Hc.
   unfold chk_cycle in Hc.
   destruct (row_layout r tn) as [L|] eqn:EL; [|discriminate].
   destruct (nth_error fw_sched (Z.to_nat (r_task r))) as [[items|]|] eqn:EI; try discriminate.
@@ -185,9 +201,9 @@ Proof.
   destruct (residues r cur Hcur) as [Hx [Hxa [Hca [Hfw [Hx2 [Hf Htr]]]]]].
   set (C := row_cycle r) in *. set (x := cur mod C) in *.
   assert (HC : 0 < C) by lia.
-  pose proof (Fc x Hx) as Hchk. unfold chk_row in Hchk. rewrite Hok in Hchk. cbn [negb orb] in Hchk.
+  pose proof (Fc x Hx) as Hchk. unfold chk_row in Hchk. apply (orb_negb_true _ _ Hok) in Hchk.
   assert (Et : is_tch (r_mode r) = false) by (destruct (r_mode r); [reflexivity | reflexivity | congruence]).
-  rewrite Et in Hchk. unfold chk_block in Hchk. rewrite FL in Hchk. cbv zeta in Hchk.
+  apply (if_false_elim _ _ _ Et) in Hchk. unfold chk_block in Hchk. rewrite FL in Hchk. cbv beta iota zeta in Hchk.
   assert (FW : forall k s, fw_fires (r_task r) k s cur = fw_fires (r_task r) k s x)
     by (intros k s; apply (fw_fires_cycle _ C items k s HC FI Fm cur x Hca Hxa Hfw)).
   assert (T1 : forall d c, trx_first L d c ((cur + 2) mod 2715648) = trx_first L d c (x + 2))
@@ -198,8 +214,8 @@ Proof.
   apply andb_prop in Hchk as [Hchk H3]. apply andb_prop in Hchk as [H1 H2].
   apply eqb_prop in H1. apply eqb_prop in H2.
   split; [exact H1|]. split; [exact H2|]. split.
-  - intros EM. rewrite EM in H3. apply andb_prop in H3 as [H3 H4]. apply eqb_prop in H3. apply eqb_prop in H4. split; assumption.
-  - intros EM. rewrite EM in H3. apply andb_prop in H3 as [H3 H4].
+  - intros EM. rewrite EM in H3. cbv beta iota in H3. apply andb_prop in H3 as [H3 H4]. apply eqb_prop in H3. apply eqb_prop in H4. split; assumption.
+  - intros EM. rewrite EM in H3. cbv beta iota in H3. apply andb_prop in H3 as [H3 H4].
     apply negb_true_iff in H3. apply negb_true_iff in H4. split; assumption.
 Qed.
 
@@ -222,8 +238,9 @@ Proof.
   destruct (residues r cur Hcur) as [Hx [Hxa [Hca [Hfw [Hx2 [Hf Htr]]]]]].
   set (C := row_cycle r) in *. set (x := cur mod C) in *.
   assert (HC : 0 < C) by lia.
-  pose proof (Fc x Hx) as Hchk. unfold chk_row in Hchk. rewrite Hok in Hchk. cbn [negb orb] in Hchk.
-  rewrite Hm in Hchk. cbn [is_tch] in Hchk. unfold chk_tch in Hchk. rewrite FL in Hchk. cbv zeta in Hchk.
+  pose proof (Fc x Hx) as Hchk. unfold chk_row in Hchk. apply (orb_negb_true _ _ Hok) in Hchk.
+  assert (Et : is_tch (r_mode r) = true) by (rewrite Hm; reflexivity).
+  apply (if_true_elim _ _ _ Et) in Hchk. unfold chk_tch in Hchk. rewrite FL in Hchk. cbv beta iota zeta in Hchk.
   assert (FW : forall k s, fw_fires (r_task r) k s cur = fw_fires (r_task r) k s x)
     by (intros k s; apply (fw_fires_cycle _ C items k s HC FI Fm cur x Hca Hxa Hfw)).
   assert (T1 : forall d c, trx_owns L d c ((cur + 2) mod 2715648) = trx_owns L d c (x + 2))
@@ -261,7 +278,7 @@ Lemma layout_table : forall L, In L tx_layouts -> ly_cfg L <> tx_GSM_PCHAN_NONE 
 Proof.
   intros L HL Hc. pose proof (forallb_In _ _ sweep_table L HL) as H. cbv beta in H.
   unfold chk_table, has_frames in H. destruct (ly_cfg L =? tx_GSM_PCHAN_NONE) eqn:E; [apply Z.eqb_eq in E; contradiction|].
-  cbn [negb orb] in H. apply andb_prop in H as [H H4]. apply andb_prop in H as [H H3]. apply andb_prop in H as [H1 H2].
+  apply (orb_negb_false _ _ eq_refl) in H. apply andb_prop in H as [H H4]. apply andb_prop in H as [H H3]. apply andb_prop in H as [H1 H2].
   apply Z.ltb_lt in H1. apply Z.leb_le in H2. apply Z.ltb_lt in H3. apply Z.eqb_eq in H4. auto.
 Qed.
 
@@ -286,9 +303,8 @@ Qed.
 (* the layout NONE (period 0, frames NULL) is the one table entry on which the lookup would divide by zero *)
 Lemma none_layout_divzero : forall L fn, In L tx_layouts -> ly_cfg L = tx_GSM_PCHAN_NONE -> trx_frame L fn = FrDivZero.
 Proof.
-  assert (S : forallb (fun L => negb (ly_cfg L =? tx_GSM_PCHAN_NONE) || (ly_period L =? 0)) tx_layouts = true) by (vm_compute; reflexivity).
-  intros L fn HL Hc. pose proof (forallb_In _ _ S L HL) as H. cbv beta in H.
-  apply Z.eqb_eq in Hc. rewrite Hc in H. cbn [negb orb] in H. unfold trx_frame. rewrite H. reflexivity.
+  intros L fn HL Hc. pose proof (forallb_In _ _ sweep_none L HL) as H. cbv beta in H.
+  apply Z.eqb_eq in Hc. rewrite Hc in H. rewrite orb_false_l in H. unfold trx_frame. rewrite H. reflexivity.
 Qed.
 
 (* ------------------------------------------------------------------ channel mask *)
@@ -301,7 +317,7 @@ Proof.
   apply andb_prop in H2 as [Hd Hu].
   assert (G : chan_in_mask L (fr_chan d fr) = true) by (destruct d; assumption).
   unfold chan_in_mask in G. destruct (fr_chan d fr =? tx_L1SCHED_IDLE) eqn:E; [apply Z.eqb_eq in E; contradiction|].
-  cbn [orb] in G. apply andb_prop in G as [G G4]. apply andb_prop in G as [G G3]. apply andb_prop in G as [G1 G2].
+  rewrite orb_false_l in G. apply andb_prop in G as [G G4]. apply andb_prop in G as [G G3]. apply andb_prop in G as [G1 G2].
   apply Z.leb_le in G1. apply Z.ltb_lt in G2. apply Z.ltb_lt in G3. auto.
 Qed.
 
@@ -362,10 +378,10 @@ Proof.
   intros L d i k fr fr' HL Hc Hi Hk Hfr Hidle Hfr' Hsame Hmin.
   pose proof (forallb_In _ _ sweep_bids L HL) as H. cbv beta in H.
   unfold chk_bids, has_frames in H. destruct (ly_cfg L =? tx_GSM_PCHAN_NONE) eqn:E; [apply Z.eqb_eq in E; contradiction|].
-  cbn [negb orb] in H. pose proof (forallb_range _ _ _ H i Hi) as H2. cbv beta in H2. clear H.
+  apply (orb_negb_false _ _ eq_refl) in H. pose proof (forallb_range _ _ _ H i Hi) as H2. cbv beta in H2. clear H.
   assert (G : chk_bid_at L d i = true) by (apply andb_prop in H2 as [Ha Hb]; destruct d; assumption). clear H2.
-  unfold chk_bid_at in G. rewrite Hfr in G. cbv zeta in G.
-  destruct (fr_chan d fr =? tx_L1SCHED_IDLE) eqn:E2; [apply Z.eqb_eq in E2; contradiction|]. cbn [orb] in G.
+  unfold chk_bid_at in G. rewrite Hfr in G. cbv beta iota zeta in G.
+  destruct (fr_chan d fr =? tx_L1SCHED_IDLE) eqn:E2; [apply Z.eqb_eq in E2; contradiction|]. rewrite orb_false_l in G.
   apply andb_prop in G as [G G3]. apply andb_prop in G as [G1 G2]. apply Z.leb_le in G1. apply Z.ltb_lt in G2.
   split; [lia|].
   destruct (first_same L d (fr_chan d fr) i 1 (Z.to_nat (ly_period L))) as [k0|] eqn:EF; [|discriminate].
